@@ -27,6 +27,9 @@ CHECKS = {
  "C15": ("model_checking", "explicit-state BFS over selection-operation sequences from every small project, each transition executed by the real method and checked against a set-based reference relation; repeated under map-iteration rotations",
          "Initial states: every project on <=3 services with profile sets over {p,q} and every DAG with absent/required/optional edges (1780 projects), with networks/volumes/secrets/build secrets/configs referenced by subsets of services. Transitions: 8 WithProfiles arguments, WithServicesEnabled/Disabled over empty/singletons/pairs of names+unknown, WithSelectedServices likewise x 3 policies, pruning (62-ish per state). BFS to depth 3 (2 for 3 services; 5/3 thorough), canonical state = partition + depends_on + profile set + resource names. Every transition: partition invariants, the operation's reference relation (Appendix A.3), and deep-equal results under the map-iteration rotations.",
          "Trusted: the reference relation in props/c15.go. Initial states are profile-consistent (profile-bearing services start disabled, as after a load).", "§4 C15, App. A.3", "E2 E3 E5"),
+ "C09": ("exploration", "bounded-exhaustive enumeration of documents over the schema's attribute set (every attribute singly, every boolean leaf flipped, every numeric leaf zeroed, full documents, multi-file inputs) x load option variants, each driven through render -> reload -> compare -> re-render on the real code",
+         "Every service attribute of the schema is set in one of three full corpus documents (310 of 325 model fields are non-zero, measured by reflection; the rest are listed in the evidence). From them the check derives one document per attribute (and per second-level attribute of the nested blocks), one per boolean leaf flipped and one per numeric leaf zeroed, adds multi-file override/extends/include/profile inputs, loads each under normalisation {on,off} x path resolution {on,off}, renders YAML and JSON, reloads each rendering with the same directory/environment/name/options, compares name/services/networks/volumes/secrets/configs/extensions with go-cmp and requires the second rendering to be byte-identical.",
+         "Trusted: go-cmp with EquateEmpty as the equality of the statement. Values outside the enumerated domains (e.g. strings needing YAML quoting beyond those in the corpus) are not covered.", "§4 C09", "E3 E5"),
 }
 
 NOT_YET = {}
